@@ -126,6 +126,10 @@ fn cmd_run(args: &[String]) -> i32 {
     let replay_dir = arg(args, "--replay-dir").unwrap_or_else(|| "/verif/replays".into());
     let known = load_known(arg(args, "--known"), &prop_s);
     let hashes_file = arg(args, "--hashes");
+    if let Some(d) = arg(args, "--progress-dir") {
+        std::fs::create_dir_all(&d).ok();
+        let _ = PROGRESS_DIR.set(d);
+    }
     println!("VERIF_SEED={} prop={} runs={} first_run={} threads={} tier={}", seed, prop_s, runs, first_run, threads, tier);
 
     let out = run_batch(prop, seed, first_run, runs, threads, &known, hashes_file.is_some(), true);
